@@ -1,64 +1,66 @@
 import Rangers.Basic.Hex
 import Rangers.Basic.Line
 import Rangers.Basic.Keccak
-import Rangers.Model.Trie
-import Rangers.Model.TrieStore
+import Rangers.Model.TrieMachine
+import Rangers.Model.TrieIter
 /-
-C02 line-protocol driver.  State = the model trie (`Trie.Node`).
-  new | upd k v | del k | get k | hash | commit | reopen | dbcommit | cachelimit n | iter start | keccak x
-`commit` and `cachelimit` do not touch the model state; `reopen`/`dbcommit` run the model's
-commit-and-reload (`Trie.reload`).  That all four are no-ops on content in the implementation
-is what the correspondence run checks.
+C02 line-protocol driver.  State = the live trie model (`Trie.LTrie`: nodes with cache flags,
+hash nodes, cache generation / limit, node database); every trie operation goes through
+`Trie.lstep`, the machine `Props/C02Live` proves observationally equal to the fully loaded,
+flag-free model of `Props/C02`.
+  new | upd k v | del k | get k | hash | commit | reopen | dbcommit | cachelimit n | iter start | shape | keccak x
 -/
 namespace Rangers.Drive.C02
 open Rangers Rangers.Trie
 
 def H := Keccak.keccak256
 
-def showRoot (t : Node) : String := toHex (rootHash H t)
+/-- fuel for full iteration: enough for keys of up to 2047 bytes (`Props.C02Live.lrun_observes`) -/
+def iterFuel : Nat := 8200
 
-def showIter (l : List (Bytes × Bytes)) : String :=
-  "n=" ++ toString l.length ++ String.join (l.map (fun e => " " ++ toHex e.1 ++ ":" ++ toHex e.2))
+def showObs : Obs → String
+  | .ok => "ok"
+  | .value (some v) => "v=" ++ toHex v
+  | .value none => "absent"
+  | .root h => toHex h
+  | .pairs l => "n=" ++ toString l.length ++ String.join (l.map (fun e => " " ++ toHex e.1 ++ ":" ++ toHex e.2))
+  | .err => "model-error"
 
-/-- `Commit` + `NewTrie(root, db)`: the model collapses the trie into store entries and expands
-    the root hash again (`Trie.reload`); by `Props.C02.expand_collapse` this is the identity. -/
-def reopen (t : Node) : Node × String :=
-  match reload H t with
-  | some t' => (t', showRoot t')
-  | none => (t, "model-reload-failed")
-
-def step (t : Node) (line : String) : Node × String :=
+def parseOp (line : String) : Option Op :=
   match splitWords line with
-  | ["new"] => (.nil, "ok")
-  | ["upd", k, v] =>
-    match ofHex? k, ofHex? v with
-    | some k, some v => (update t k v, "ok")
-    | _, _ => (t, "bad-op")
-  | ["del", k] =>
-    match ofHex? k with
-    | some k => (remove t k, "ok")
-    | none => (t, "bad-op")
-  | ["get", k] =>
-    match ofHex? k with
-    | some k => (t, match lookup t k with | some v => "v=" ++ toHex v | none => "absent")
-    | none => (t, "bad-op")
-  | ["hash"] => (t, showRoot t)
-  | ["commit"] => (t, showRoot t)
-  | ["reopen"] => reopen t
-  | ["dbcommit"] => reopen t
-  | ["cachelimit", n] =>
-    match n.toNat? with
-    | some n => if n < 65536 then (t, "ok") else (t, "bad-op")
-    | none => (t, "bad-op")
-  | ["iter", s] =>
-    match ofHex? s with
-    | some s => (t, showIter (iterFrom t s))
-    | none => (t, "bad-op")
+  | ["upd", k, v] => do let k ← ofHex? k; let v ← ofHex? v; pure (.upd k v)
+  | ["del", k] => (ofHex? k).map .del
+  | ["get", k] => (ofHex? k).map .get
+  | ["hash"] => some .hash
+  | ["commit"] => some .commit
+  | ["reopen"] => some .reopen
+  | ["dbcommit"] => some .dbcommit
+  | ["cachelimit", n] => n.toNat?.bind (fun n => if n < 65536 then some (.cachelimit n) else none)
+  | ["iter", s] => (ofHex? s).map .iter
+  | _ => none
+
+def step (t : LTrie) (line : String) : LTrie × String :=
+  match splitWords line with
+  | ["new"] => (LTrie.empty, "ok")
+  | ["shape"] => (t, shapeL t.root ++ " g" ++ toString t.gen)
   | ["keccak", x] =>
     match ofHex? x with
     | some x => (t, toHex (H x))
     | none => (t, "bad-op")
-  | _ => (t, "bad-op")
+  | _ =>
+    match parseOp line with
+    | some (.iter start) =>
+      -- `lstep` answers with `iterFrom` (the specification of the order); the iterator stack machine
+      -- (`Model/TrieIter`) is run next to it on the same expanded trie and must agree
+      let r := lstep H iterFuel t (.iter start)
+      let t' := (t.hash H).2
+      match expandFull t'.db iterFuel t'.root with
+      | some n =>
+        if Obs.pairs (iterMachine n start) == r.2 then (r.1, showObs r.2)
+        else (r.1, "model-iterator-machine-differs " ++ showObs (.pairs (iterMachine n start)))
+      | none => (r.1, showObs r.2)
+    | some op => let r := lstep H iterFuel t op; (r.1, showObs r.2)
+    | none => (t, "bad-op")
 
-def run : IO Unit := runLines Node.nil step
+def run : IO Unit := runLines LTrie.empty step
 end Rangers.Drive.C02
